@@ -87,7 +87,8 @@ def configs(ss, rng, n):
             kw = dict(prob=pr, annual_prob=False); meta = dict(kind='routine', start_year=y0, end_year=y1, prob=pr, dt=dt, annual=False)
         else:            # campaign
             m = rng.randrange(1, 4); yrs = sorted(round(rng.uniform(y0, y1), 2) for _ in range(m))
-            pr = [round(rng.uniform(0.1, 0.9), 2) for _ in yrs] if rng.random() < 0.6 else round(rng.uniform(0.1, 0.9), 2)
+            if i % 8 == 7 or (m > 1 and rng.random() < 0.5): yrs = yrs[::-1] if m > 1 else [round(y0 + 0.7 * span, 2), round(y0 + 0.2 * span, 2)]   # campaigns listed out of chronological order
+            pr = [round(rng.uniform(0.1, 0.9), 2) for _ in yrs] if (rng.random() < 0.6 or i % 8 == 7) else round(rng.uniform(0.1, 0.9), 2)
             kw = dict(years=yrs, prob=pr); meta = dict(kind='campaign', years=yrs, prob=pr, dt=dt)
         meta.update(eff=eff, elig=ek)
         cls = ss.campaign_vx if meta['kind'] == 'campaign' else ss.routine_vx
@@ -99,17 +100,18 @@ def configs(ss, rng, n):
     # screening + capacity-limited treatment on SIS
     for j in range(max(2, n // 3)):
         dt, y0, y1 = grid[j % 3]
-        cap = [3, None, 0, 10, 1][j % 5]
+        cap = [3, None, 1, 10, 0, 2][j % 6]
         teff = [0.75, 1.0, 0.5][j % 3]
         camp = False   # campaign_screening cannot deliver at all (no coverage_dist: AttributeError) -- see DESIGN.md, observation
         a = y0 + 1; b = y1 - 1
         pr = round(rng.uniform(0.2, 0.9), 2); tpr = round(rng.uniform(0.5, 1.0), 2)
-        elig_t = ['positives', 'infected'][j % 2]
+        elig_t = ['positives', 'infected', 'infected_intermittent'][j % 3]
         smeta = dict(kind='campaign', years=[a + 0.3, b], prob=pr, dt=dt) if camp else dict(kind='routine', start_year=a, end_year=b, prob=pr, dt=dt, annual=True)
         def mk(seed, dt=dt, y0=y0, y1=y1, cap=cap, teff=teff, camp=camp, a=a, b=b, pr=pr, tpr=tpr, elig_t=elig_t):
             dx = ss.Dx(dx_table('sis'), hierarchy=['positive', 'negative'])
             scr = CScreen(product=dx, prob=pr, years=[a + 0.3, b], name='scr') if camp else Screen(product=dx, prob=pr, start_year=a, end_year=b, name='scr')
-            et = (lambda sim: ss.uids(sim.interventions['scr'].outcomes['positive'])) if elig_t == 'positives' else (lambda sim: sim.diseases.sis.infected.uids)
+            et = {'positives': lambda sim: ss.uids(sim.interventions['scr'].outcomes['positive']), 'infected': lambda sim: sim.diseases.sis.infected.uids,
+                  'infected_intermittent': lambda sim: (sim.diseases.sis.infected.uids if sim.ti % 3 != 2 else ss.uids())}[elig_t]   # the rule returns nobody every third step
             trt = ss.treat_num(product=ss.Tx(tx_table('sis', teff)), prob=tpr, max_capacity=cap, eligibility=et, name='trt')
             tri = ss.routine_triage(product=ss.Dx(dx_table('sis'), hierarchy=['positive', 'negative']), prob=0.9, eligibility=lambda sim: ss.uids(sim.interventions['scr'].outcomes['positive']), name='tri')
             return ss.Sim(n_agents=150, diseases=ss.SIS(init_prev=0.3, beta=0.1), networks=ss.RandomNet(), interventions=[scr, trt, tri], demographics=dem(),
